@@ -105,8 +105,22 @@ def check_config(cfg, w, rep, strict_single=False):
 
     # ---- (c) bucket files: append+create or read-only; removed only by the documented full removal ----
     n_bucket = 0
+    from .fsrules import FsWorld
+    fw_ = FsWorld.get(w)
     for e in w.inv.effects:
-        for role, c in e.classes.items():
+        # judged on the path the effect really gets: a helper that is handed the bucket path (parameter) is expanded to its
+        # callers' arguments
+        classes = dict(e.classes)
+        for role, cs in fw_.expanded(e).items():
+            if role in classes and classes[role][0] in ("Param", "Handle") and cs:
+                for x in cs:
+                    cur_ = x
+                    while isinstance(cur_, tuple) and cur_ and cur_[0] in ("Handle", "Parent"):
+                        cur_ = cur_[1]
+                    if isinstance(cur_, tuple) and cur_ and cur_[0] == "Bucket":
+                        classes[role] = x
+                        break
+        for role, c in classes.items():
             if role in ("builder", "len"):
                 continue
             root = c
